@@ -172,6 +172,8 @@ class _Eval:
                 if v[0] != "ref":
                     raise Opaque("deref of non-reference")
                 v = v[1]
+            elif isinstance(e, dict) and "v" in e:
+                continue   # enum downcast: the payload is modelled as the fields of a tuple
             elif isinstance(e, dict) and "f" in e:
                 if v[0] != "tuple":
                     raise Opaque("field of non-tuple")
@@ -192,29 +194,48 @@ class _Eval:
                 return ("int", c["int"])
         return ("unk",)
 
-    def run(self, body, arg_vals, cell, depth=0):
-        """Evaluate `body` with abstract argument values; `cell` = (lo, hi). Returns bool."""
+    def run(self, body, arg_vals, cell, depth=0, start=0, env0=None, stops=None):
+        """Evaluate `body` with abstract argument values; `cell` = (lo, hi). Returns bool.
+        Loop-body mode (`stops` given: {block: label}): start at `start` with the environment `env0`, follow the one path
+        the cell takes and return (label, passed an `_0 = Err(..)`) on reaching a stop block, or ('return', ..) at a
+        return; values the evaluator does not model are unknown instead of an error (only a branch on one is)."""
         if depth > 8:
             raise Opaque("predicate recursion too deep")
-        env = {}
+        lenient = stops is not None
+        passed_err = False
+        env = dict(env0 or {})
         for i, v in enumerate(arg_vals):
             env[i + 1] = v
-        bb = 0
+        bb = start
         steps = 0
         lo, hi = cell
         while True:
             steps += 1
             if steps > 5000:
                 raise Opaque("predicate does not terminate abstractly")
+            if lenient and bb in stops and steps > 1:
+                return stops[bb], passed_err
             blk = body.blocks[bb]
             for s in blk["s"]:
                 if s["k"] != "assign":
+                    if lenient:
+                        continue
                     raise Opaque("statement %s" % s["k"])
                 if s["place"]["p"]:
+                    if lenient:
+                        continue
                     raise Opaque("write through a projection")
                 dst = s["place"]["l"]
                 rv = s["rv"]
                 k = rv["k"]
+                if lenient:
+                    if dst == 0 and k == "agg" and rv.get("variant") == "Err":
+                        passed_err = True
+                    try:
+                        self._assign(env, dst, rv, lo, hi)
+                    except Opaque:
+                        env[dst] = ("unk",)
+                    continue
                 if k == "use":
                     env[dst] = self.read_op(env, rv["op"])
                 elif k == "ref":
@@ -260,6 +281,8 @@ class _Eval:
             if k == "goto":
                 bb = t["target"]
             elif k == "return":
+                if lenient:
+                    return "return", passed_err
                 r = env.get(0, ("unk",))
                 if r[0] != "bool":
                     raise Opaque("predicate returns a non-boolean abstract value")
@@ -302,7 +325,13 @@ class _Eval:
                         if tid in self.prog.bodies:
                             tgt = self.prog.bodies[tid]
                             break
-                    if tgt is None:
+                    if tgt is None or (lenient and "bool" not in tgt.local_ty(0)):
+                        if lenient:
+                            env[dst["l"]] = ("unk",)
+                            if t.get("target") is None:
+                                raise Opaque("diverging call")
+                            bb = t["target"]
+                            continue
                         raise Opaque("call to %s" % n)
                     env[dst["l"]] = ("bool", self.run(tgt, args, cell, depth + 1))
                 bb = t["target"]
@@ -310,6 +339,48 @@ class _Eval:
                 bb = t["target"]
             else:
                 raise Opaque("terminator %s" % k)
+
+    def _assign(self, env, dst, rv, lo, hi):
+        k = rv["k"]
+        if k == "use":
+            env[dst] = self.read_op(env, rv["op"])
+        elif k == "ref":
+            env[dst] = ("ref", self.read_place(env, rv["place"]))
+        elif k == "unop":
+            a = self.read_op(env, rv["a"])
+            if rv["op"] == "Not" and a[0] == "bool":
+                env[dst] = ("bool", not a[1])
+            else:
+                raise Opaque("unary")
+        elif k == "binop":
+            a = self.read_op(env, rv["a"])
+            b = self.read_op(env, rv["b"])
+            op = rv["op"]
+            if op in CMP:
+                if a[0] == "cell" and b[0] == "int":
+                    env[dst] = ("bool", self._cmp(op, lo, hi, b[1]))
+                elif a[0] == "int" and b[0] == "cell":
+                    env[dst] = ("bool", self._cmp(FLIP[op], lo, hi, a[1]))
+                elif a[0] == "int" and b[0] == "int":
+                    env[dst] = ("bool", CMP[op](a[1], b[1]))
+                elif a[0] == "bool" and b[0] == "bool" and op in ("Eq", "Ne"):
+                    env[dst] = ("bool", CMP[op](a[1], b[1]))
+                else:
+                    raise Opaque("comparison")
+            elif op in ("BitAnd", "BitOr", "BitXor") and a[0] == "bool" and b[0] == "bool":
+                env[dst] = ("bool", {"BitAnd": a[1] and b[1], "BitOr": a[1] or b[1], "BitXor": a[1] != b[1]}[op])
+            else:
+                raise Opaque("arithmetic")
+        elif k == "cast":
+            a = self.read_op(env, rv["op"])
+            if a[0] == "cell" and rv["cast"] == "IntToInt" and rv["ty"] in ("char", "u32", "u64", "usize", "u16"):
+                env[dst] = a
+            else:
+                raise Opaque("cast")
+        elif k == "agg" and rv["agg"] == "tuple":
+            env[dst] = ("tuple", {i: self.read_op(env, o) for i, o in enumerate(rv["ops"])})
+        else:
+            raise Opaque("rvalue %s" % k)
 
     @staticmethod
     def _cmp(op, lo, hi, k):
@@ -390,3 +461,31 @@ def _count_cells(shape):
     if shape[0] == "tuple":
         return sum(_count_cells(v) for v in shape[1].values())
     return 0
+
+
+def loop_scan_set(prog, body, some_bb, header_bb, opt_local):
+    """Loop form of a character scan: `for x in <chars of the input> { if <test x> { return Err(..) } }`.
+    `opt_local` holds the `Option<item>` the iterator yielded, `some_bb` is the block entered for `Some`, `header_bb`
+    the block that asks for the next item.  Returns (set of characters for which the body leaves through a return, do
+    all of those returns pass an `_0 = Err(..)`, width, cells)."""
+    ev = _Eval(prog)
+    ty = body.local_ty(opt_local)
+    if not ty.startswith("core::option::Option<") or not ty.endswith(">"):
+        raise Opaque("loop item is not an Option")
+    inner = ty[len("core::option::Option<"):-1]
+    shape = ev.shape_of_type(inner)
+    if _count_cells(shape) != 1:
+        raise Opaque("cannot locate exactly one character in the loop item %s" % inner)
+    width = MAXC if "char" in inner else 0xFF
+    cuts = {0, width + 1} | {c for c in ev.cut_points(body) if 0 <= c <= width + 1}
+    cuts = sorted(cuts)
+    bad = []
+    err_ok = True
+    n = 0
+    for a, b in zip(cuts, cuts[1:]):
+        n += 1
+        label, passed = ev.run(body, [], (a, b - 1), start=some_bb, env0={opt_local: ("tuple", {0: shape})}, stops={header_bb: "continue"})
+        if label == "return":
+            bad.append((a, b - 1))
+            err_ok = err_ok and passed
+    return normalise(bad), err_ok, width, n
